@@ -427,6 +427,22 @@ def rule_nceform(ctx):
         # conditional entropy: marginal of the *other* side dotted with column entropies
         hok = h is not None and h.op == "call" and call_name(h) == "np.dot" and any(x.op == "call" and call_name(x) == "scipy.stats.entropy" and tm.is_const(dict(x.a[2]).get("base", tm.none()), 2) for x in tm.walk(h))
         yield ob(R, f, "segment.nce:conditional-entropy-%s" % name, hok, "H is a marginal-weighted sum of base-2 column entropies of the (transposed) table")
+        # the documented special value: a side with a single class has normaliser 0 and its score "will be 0"
+        def _has_form(t_):
+            return any(x.op == "bin" and x.a[0] == "-" and tm.is_const(x.a[1], 1) and x.a[2].op == "bin" and x.a[2].a[0] == "/" for x in tm.walk(t_))
+
+        def _leaves(t_):
+            if t_.op == "ite":
+                return _leaves(t_.a[1]) + _leaves(t_.a[2])
+            return [t_]
+
+        falls = []
+        for x in tm.walk(score):
+            if x.op == "ite" and (_has_form(x.a[1]) != _has_form(x.a[2])):
+                falls += _leaves(x.a[2] if _has_form(x.a[1]) else x.a[1])
+        if falls:
+            zero = all(tm.is_const(y, 0) for y in falls)
+            yield ob(R, f, "segment.nce:zero-normaliser-value-%s" % name, zero, "with a zero normaliser (one class on the %s side) S_%s is the documented 0" % ("reference" if dim == 0 else "estimated", name) if zero else "with a zero normaliser S_%s falls back to %s; the documentation says it will be 0" % (name, ", ".join(tm.show(y, 2) for y in falls)))
     # the table is normalised by the number of frames
     div = [d for d in s.by_kind("div") if d.num.op == "call" and call_name(d.num) == "astype" and any(x.op == "call" and call_name(x) == "segment._contingency_matrix" for x in tm.walk(d.num))]
     good = len(div) == 1 and div[0].den.op == "call" and call_name(div[0].den) == "builtins.len"
